@@ -139,6 +139,9 @@ class Project(object):
         if not package.startswith('.'):
             return package
 
+        if not filename:
+            raise ImportError('Relative name outside of a file: {}'.format(package))
+
         root = filename
         for _ in range(len(package) - len(package.lstrip('.'))):
             root = os.path.dirname(root)
